@@ -49,10 +49,28 @@ def unhex(s):
 
 
 def parse_strace(dirpath, outfile):
-    """-> list of events on files in the output directory opened for writing
-    (from the per-thread files of strace -ff)."""
+    """-> list of events (from the per-thread files of strace -ff) on the
+    output path, on files of the output directory that look like its
+    temporary siblings, and on any file that is later renamed into the output
+    directory (wherever it was written)."""
     outdir = os.path.dirname(outfile)
-    events = []
+
+    def absn(p):
+        return os.path.normpath(p if os.path.isabs(p) else
+                                os.path.join(outdir, p))
+
+    def near_out(path):
+        base = os.path.basename(path)
+        if os.path.dirname(path) != outdir:
+            return False
+        if base in ('events.ndjson', 'cmd.log', 'spec.json', 'cmd_cc.log',
+                    'spec_cc.json'):
+            return False
+        return (path == outfile or base.startswith(os.path.basename(outfile))
+                or 'tmp' in base)
+
+    per_thread = []
+    renamed_src = set()
     for fn in sorted(os.listdir(dirpath)):
         fds = {}
         evs = []
@@ -66,21 +84,10 @@ def parse_strace(dirpath, outfile):
                     pm = re.search(r'"((?:\\x[0-9a-f]{2})*)"', args)
                     if not pm or ret < 0:
                         continue
-                    path = unhex(pm.group(1)).decode('utf-8', 'replace')
-                    if not os.path.isabs(path):
-                        path = os.path.join(outdir, path)
-                    path = os.path.normpath(path)
-                    if os.path.dirname(path) != outdir:
-                        continue
-                    base = os.path.basename(path)
-                    if not (path == outfile or base.startswith(
-                            os.path.basename(outfile)) or 'tmp' in base):
-                        continue
-                    if base in ('events.ndjson', 'cmd.log', 'spec.json'):
-                        continue
+                    path = absn(unhex(pm.group(1)).decode('utf-8', 'replace'))
                     wr = ('O_WRONLY' in args or 'O_RDWR' in args
                           or call == 'creat')
-                    if not wr:
+                    if not wr or path.startswith(('/dev/', '/proc/')):
                         continue
                     fds[ret] = path
                     evs.append({'op': 'open', 'path': path, 'fd': ret,
@@ -90,41 +97,74 @@ def parse_strace(dirpath, outfile):
                     if fd in fds and ret >= 0:
                         dm = re.search(r'"((?:\\x[0-9a-f]{2})*)"', args)
                         data = unhex(dm.group(1))[:ret] if dm else b''
-                        evs.append({'op': 'write', 'fd': fd,
+                        evs.append({'op': 'write', 'fd': fd, 'path': fds[fd],
                                     'data': list(data)})
                 elif call == 'close':
                     fd = int(args.strip() or -1)
                     if fd in fds:
-                        del fds[fd]
-                        evs.append({'op': 'close', 'fd': fd})
+                        evs.append({'op': 'close', 'fd': fd,
+                                    'path': fds.pop(fd)})
                 elif call in ('rename', 'renameat', 'renameat2'):
                     ps = [unhex(x).decode('utf-8', 'replace') for x in
                           re.findall(r'"((?:\\x[0-9a-f]{2})*)"', args)]
                     if len(ps) >= 2 and ret == 0:
-                        ps = [os.path.normpath(p if os.path.isabs(p) else
-                                               os.path.join(outdir, p))
-                              for p in ps[:2]]
-                        if os.path.dirname(ps[1]) == outdir:
+                        ps = [absn(p) for p in ps[:2]]
+                        if near_out(ps[1]):
+                            renamed_src.add(ps[0])
                             evs.append({'op': 'rename', 'src': ps[0],
                                         'dst': ps[1]})
                 elif call in ('unlink', 'unlinkat'):
                     pm = re.search(r'"((?:\\x[0-9a-f]{2})*)"', args)
                     if pm and ret == 0:
-                        p = unhex(pm.group(1)).decode('utf-8', 'replace')
-                        p = os.path.normpath(p if os.path.isabs(p) else
-                                             os.path.join(outdir, p))
-                        if os.path.dirname(p) == outdir and (
-                                p == outfile or 'tmp' in os.path.basename(p)):
-                            evs.append({'op': 'unlink', 'path': p})
-        if any(e['op'] == 'open' for e in evs):
-            events.extend(evs)
+                        p = absn(unhex(pm.group(1)).decode('utf-8', 'replace'))
+                        evs.append({'op': 'unlink', 'path': p})
+        per_thread.append(evs)
+
+    def relevant(e):
+        if e['op'] == 'rename':
+            return True
+        return near_out(e['path']) or e['path'] in renamed_src
+
+    events = []
+    for evs in per_thread:
+        keep = [e for e in evs if relevant(e)]
+        if any(e['op'] in ('open', 'rename') for e in keep):
+            for e in keep:
+                if e['op'] in ('write', 'close'):
+                    e = {k: v for k, v in e.items() if k != 'path'}
+                events.append(e)
     return events
+
+
+def other_filesystem_dir(ref):
+    """A writable directory on a filesystem other than the one holding `ref`
+    (a temporary directory elsewhere makes a rename fall back to copying), or
+    None."""
+    try:
+        dev = os.stat(ref).st_dev
+    except OSError:
+        return None
+    for cand in ('/dev/shm', '/tmp', '/run/user/%d' % os.getuid(), '/var/tmp'):
+        try:
+            if os.path.isdir(cand) and os.access(cand, os.W_OK) and \
+                    os.stat(cand).st_dev != dev:
+                return cand
+        except OSError:
+            continue
+    return None
 
 
 def strace_run(k, jobs, strategy):
     wd = common.subscratch(f'c06-strace{k}')
     sdir = os.path.join(wd, 'strace')
     os.makedirs(sdir, exist_ok=True)
+    tmpdir = None
+    if k % 3 == 2:
+        # the temporary directory on another filesystem than the output file
+        other = other_filesystem_dir(wd)
+        if other:
+            import tempfile
+            tmpdir = tempfile.mkdtemp(prefix='ddsmt-verif-c06.', dir=other)
     # run through runs.run_ddsmt with an strace prefix: patch argv via hook
     r = runs.run_ddsmt(
         wd, INPUT, dict(SPEC, delay_ms=1), ['--strategy', strategy, '-j',
@@ -132,7 +172,11 @@ def strace_run(k, jobs, strategy):
         timeout=300, prefix=['strace', '-ff', '-o',
                              os.path.join(sdir, 't'), '-xx', '-s', '200000',
                              '-e', 'trace=openat,open,creat,write,close,'
-                             'rename,renameat,renameat2,unlink,unlinkat'])
+                             'rename,renameat,renameat2,unlink,unlinkat'],
+        tmpdir=tmpdir)
+    if tmpdir:
+        import shutil
+        shutil.rmtree(tmpdir, ignore_errors=True)
     evs = parse_strace(sdir, r.outfile)
     accepted = [list(e['text'].encode()) for e in r.events
                 if e['ev'] == 'write' and e['text'] is not None]
